@@ -121,6 +121,10 @@ class Inbound:
     # quickly. They don't need to register anything.
 
     def subchannel_pauseProducing(self, sc):
+        if sc not in self._open_subchannels.values():
+            # a subchannel that is gone has nothing left to throttle, and
+            # nobody would ever take its pause back
+            return
         was_paused = bool(self._paused_subchannels)
         self._paused_subchannels.add(sc)
         if self._connection and not was_paused:
